@@ -140,7 +140,7 @@ Qed.
 Lemma add_item_dext c x b : dext [b] x (add_item c x b).
 Proof.
   unfold add_item.
-  set (x1 := mkDat (batch x ++ [b]) _ _ _ _ _ _ _ _).
+  set (x1 := mkDat (batch x ++ [b]) _ _ _ _ _ _ _ _ _).
   assert (H1 : dext [b] x x1).
   { exists []. split; [reflexivity|]. split; [intros e []|]. split; [|split].
     - intros b' H. cbn in H. apply in_app_or in H. exact H.
@@ -166,7 +166,7 @@ Lemma handle_wm_dext c x o t :
   exists O, dext O x (handle_wm c x o t) /\ forall b, In b O -> exists k ts, b = BTm o k ts.
 Proof.
   unfold handle_wm. destruct (tsplit _ _) as [fired rest].
-  set (x1 := mkDat _ _ _ _ _ _ _ _ _).
+  set (x1 := mkDat _ _ _ _ _ _ _ _ _ _).
   destruct (fold_add_dext c o fired x1) as (O & HO & HB).
   exists O. split; auto.
 Qed.
